@@ -594,7 +594,12 @@ def run_check(prop, argv=None):
             'stubbed_components': getattr(prop, 'STUBS', [
                 'kernel socket', 'DNS', 'select.poll', 'TLS (record/pending '
                 'model)', 'time.time', 'os.urandom', 'random()', 'peer',
-                'application']),
+                'application', 'threading.Lock (SoloLock in single-threaded '
+                'runs, the scheduler\'s SimLock in ThreadSim families; also '
+                'for locks lomond creates at import time)', 'GIL scheduling '
+                'in ThreadSim families (real threads, one released at a time '
+                'by the seeded scheduler)', 'logging handler (formats every '
+                'record and drops it; DEBUG level in one run of six)']),
         },
     }
     extra = getattr(prop, 'evidence_extra', None)
